@@ -2,6 +2,7 @@ package chainsim
 
 import (
 	"bytes"
+	"encoding/hex"
 	"fmt"
 
 	banktypes "github.com/cosmos/cosmos-sdk/x/bank/types"
@@ -20,6 +21,9 @@ type checkerSet struct {
 	r    *core.Run
 	w    *World
 	c17  *certModel
+	// C07: per-transaction result digests and per-block app hashes of replica 0
+	txHashes  []string
+	appHashes []string
 }
 
 func newChecker(prop string, w *World) *checkerSet {
@@ -68,12 +72,20 @@ func (cs *checkerSet) Quiescent(w *World, s *Snap, l *Ledger, why string) *core.
 	case "C19":
 		return cs.c19State(w, s, why)
 	case "C17":
+		if why == "restart" {
+			// the state right after a restart is the last commit, the history model already contains the
+			// interrupted block: compared again after the block was re-delivered
+			return nil
+		}
 		return cs.c17State(w, s, why)
 	}
 	return nil
 }
 
 func (cs *checkerSet) blockEnd(w *World, hashes [][]byte) *core.Violation {
+	if cs.prop == "C07" {
+		cs.appHashes = append(cs.appHashes, hex.EncodeToString(hashes[0]))
+	}
 	for i := 1; i < len(hashes); i++ {
 		if !bytes.Equal(hashes[0], hashes[i]) {
 			if cs.prop == "C07" {
@@ -153,6 +165,18 @@ func requiredProbes(property string) []string {
 		return []string{"probe:group-insufficient-funds", "probe:group-started", "probe:group-paused"}
 	case "C05":
 		return []string{"probe:bid-ended", "probe:deployment-ended"}
+	case "C06":
+		return []string{"fault:wrong-signer", "fault:duplicate-tx", "probe:wrong-signer-CreateLease", "probe:wrong-signer-CloseBid", "probe:wrong-signer-CreateCertificate"}
+	case "C07":
+		return []string{"probe:attestation-merge-2+", "probe:attestation-partial-delete", "probe:cross-process-reexecutions", "fault:crash-before-commit"}
+	case "C08":
+		return []string{"probe:bid-on-allof-order", "probe:bid-on-anyof-order", "probe:audited-bid-accepted", "probe:inadmissible-bid-rejected", "probe:update-provider-with-active-lease"}
+	case "C16":
+		return []string{"probe:akash-events", "probe:multi-event-tx", "probe:indirect-close-via-withdraw"}
+	case "C17":
+		return []string{"probe:cert-registered", "probe:cert-revoked", "probe:cert-serial-0", "probe:cert-serial-wide", "probe:cert-list-multipage"}
+	case "C19":
+		return []string{"probe:boundary-valid", "probe:boundary-invalid", "probe:boundary-accepted", "fault:out-of-gas-abort"}
 	}
 	return nil
 }
